@@ -70,23 +70,25 @@ LabBlock(ss, b) ==
 
 NR(a) == Len(Asts[a].routines)
 Body(a, r) == IF r = 0 THEN Asts[a].main ELSE Asts[a].routines[r].body
-\* all flattened code, computed once: CodeOf[a][r] for routine r of program a (0 = main)
-CodeOf == [a \in 1..NA |-> [r \in 0..NR(a) |->
+\* flattened code of program a: MkCode(a)[r] for routine r (0 = main).  TLC re-evaluates definitions on every use,
+\* so the flattened program is computed once per execution and carried in the variables code / labs.
+MkCode(a) == [r \in 0..NR(a) |->
              IF r = 0 THEN FlatBlock(Body(a, 0), 1)
              ELSE FlatBlock(Body(a, r), 1) \o <<[op |-> "line", file |-> Asts[a].routines[r].endfile, line |-> Asts[a].routines[r].endline],
-                                                [op |-> "ret"]>>]]
-LabelsOf == [a \in 1..NA |-> [r \in 0..NR(a) |-> LabBlock(Body(a, r), 1)]]
-LabelPc(a, r, l) == (CHOOSE q \in LabelsOf[a][r] : q[1] = l)[2]
+                                                [op |-> "ret"]>>]
+MkLabs(a) == [r \in 0..NR(a) |-> LabBlock(Body(a, r), 1)]
 \* the definition a call sees: the latest one completed before the caller's own definition (all of them for main)
 Callee(a, r, name) == LET cands == {k \in 1..(IF r = 0 THEN NR(a) ELSE r - 1) : Asts[a].routines[k].name = name}
                       IN CHOOSE k \in cands : \A j \in cands : j <= k
 
 VARIABLES a,        \* program under execution
+          code, labs, \* its flattened code and label positions (constant during one execution)
           frames,   \* activation stack: [r, pc, env, ctr, it, n0, tgt]
           halted,   \* STOP was executed
           over,     \* a value left the word range: the obligation of C01 ends here (C20 takes over)
           n         \* executed steps
-svars == <<a, frames, halted, over, n>>
+svars == <<a, code, labs, frames, halted, over, n>>
+LabelPc(r, l) == (CHOOSE q \in labs[r] : q[1] = l)[2]
 
 Top == frames[Len(frames)]
 Get(env, x) == IF x \in DOMAIN env THEN env[x] ELSE 0
@@ -96,19 +98,19 @@ Val(env, v) == CASE v.k = "var" -> Get(env, v.x)
                  [] v.k = "const" -> v.c
                  [] v.k = "inc" -> Get(env, v.x) + v.c
                  [] v.k = "dec" -> IF Get(env, v.x) > v.c THEN Get(env, v.x) - v.c ELSE 0
-Finished == Len(frames) = 1 /\ Top.pc > Len(CodeOf[a][0])
+Finished == Len(frames) = 1 /\ Top.pc > Len(code[0])
 Done == halted \/ Finished \/ over
-Cur == CodeOf[a][Top.r][Top.pc]
+Cur == code[Top.r][Top.pc]
 SetTop(f) == frames' = [frames EXCEPT ![Len(frames)] = f]
 EmptyEnv == [x \in {} |-> 0]
 Frame0(r, env, tgt) == [r |-> r, pc |-> 1, env |-> env, ctr |-> EmptyEnv, it |-> EmptyEnv, n0 |-> EmptyEnv, tgt |-> tgt]
 
-SemInit(q) == a = q /\ frames = <<Frame0(0, EmptyEnv, "")>> /\ halted = FALSE /\ over = FALSE /\ n = 0
+SemInit(q) == a = q /\ code = MkCode(q) /\ labs = MkLabs(q) /\ frames = <<Frame0(0, EmptyEnv, "")>> /\ halted = FALSE /\ over = FALSE /\ n = 0
 
 \* one step of the top activation
 Exec ==
   LET f == Top  i == Cur IN
-  /\ n' = n + 1 /\ UNCHANGED a
+  /\ n' = n + 1 /\ UNCHANGED <<a, code, labs>>
   /\ CASE i.op = "line" -> SetTop([f EXCEPT !.pc = f.pc + 1]) /\ UNCHANGED <<halted, over>>
        [] i.op = "set" -> IF Fits(f.env, i.v)
                           THEN SetTop([f EXCEPT !.pc = f.pc + 1, !.env = Put(f.env, i.x, Val(f.env, i.v))]) /\ UNCHANGED <<halted, over>>
@@ -133,8 +135,8 @@ Exec ==
                            /\ UNCHANGED <<halted, over>>
        [] i.op = "wtest" -> SetTop([f EXCEPT !.pc = IF Get(f.env, i.x) = 0 THEN i.exit ELSE f.pc + 1]) /\ UNCHANGED <<halted, over>>
        [] i.op = "jmp" -> SetTop([f EXCEPT !.pc = i.to]) /\ UNCHANGED <<halted, over>>
-       [] i.op = "goto" -> SetTop([f EXCEPT !.pc = LabelPc(a, f.r, i.to)]) /\ UNCHANGED <<halted, over>>
-       [] i.op = "ifeq" -> SetTop([f EXCEPT !.pc = IF Get(f.env, i.x) = i.c THEN LabelPc(a, f.r, i.to) ELSE f.pc + 1])
+       [] i.op = "goto" -> SetTop([f EXCEPT !.pc = LabelPc(f.r, i.to)]) /\ UNCHANGED <<halted, over>>
+       [] i.op = "ifeq" -> SetTop([f EXCEPT !.pc = IF Get(f.env, i.x) = i.c THEN LabelPc(f.r, i.to) ELSE f.pc + 1])
                            /\ UNCHANGED <<halted, over>>
        [] i.op = "stop" -> halted' = TRUE /\ UNCHANGED <<frames, over>>
 
